@@ -3,6 +3,7 @@
 #include <memory>
 #include <optional>
 #include "common_types.h"
+#include "crash.h"
 
 #ifdef TEAKRA_VERIF
 // Verification hook: every word access is reported first; returning false suppresses the access
@@ -25,6 +26,7 @@ struct SharedMemory {
     }
 
     u16 ReadWord(u32 word_address) const {
+        ASSERT(word_address < 0x40000); // the array holds 0x40000 words
         u32 byte_address = word_address * 2;
 #ifdef TEAKRA_VERIF
         if (TeakraVerifMemHook && !TeakraVerifMemHook(byte_address, false, 0))
@@ -37,6 +39,7 @@ struct SharedMemory {
     void WriteWord(u32 word_address, u16 value) {
         u8 low = value & 0xFF;
         u8 high = value >> 8;
+        ASSERT(word_address < 0x40000); // the array holds 0x40000 words
         u32 byte_address = word_address * 2;
 #ifdef TEAKRA_VERIF
         if (TeakraVerifMemHook && !TeakraVerifMemHook(byte_address, true, value))
